@@ -5,7 +5,7 @@
 From Coq Require Import List NArith PeanoNat String Bool Lia ZifyBool ZifyNat ZifyN.
 Import ListNotations.
 From Verif Require Import Common.Base Common.Media1Util Model.AnnexB Model.H26xWriter Model.H26xDepack
-  Proofs.Media1Util Proofs.AnnexB Proofs.H26xWriter.
+  Proofs.Media1Util Proofs.AnnexB Proofs.AnnexB4 Proofs.H26xWriter.
 Open Scope N_scope.
 
 (* ================= H.264 ================= *)
@@ -315,16 +315,14 @@ Qed.
 Theorem h264_end_to_end : forall ps l cs,
   from_first is_key_frame_264 (filter nonempty ps) = flat_map enc264 l ->
   Forall wf_apkt l ->
-  Forall (fun n => nal_ok n = true) (flat_map carried264 l) ->
+  Forall (fun n => nal_ok4 n = true) (flat_map carried264 l) ->
   chunks_ok cs ->
   List.concat cs = fst (write_all unm264 is_key_frame_264 {| has_kf := false; dep := [] |} ps) ->
   read_all (fun _ => false) cs = (flat_map carried264 l, "eof"%string).
 Proof.
   intros ps l cs Hs Hwf Hok Hcs Hcat.
-  rewrite gate, Hs, unm264_contract in Hcat by exact Hwf. unfold frame4 in Hcat.
-  rewrite (roundtrip_all (fun _ => false) cs _ (fun _ => eq_refl) Hcs Hcat).
-  - rewrite map_map. cbn [snd]. rewrite map_id. reflexivity.
-  - unfold units_ok. rewrite Forall_map. cbn [snd]. exact Hok.
+  rewrite gate, Hs, unm264_contract in Hcat by exact Hwf.
+  exact (roundtrip_all4 (fun _ => false) cs _ (fun _ => eq_refl) Hcs Hcat Hok).
 Qed.
 
 Example h264_end_to_end_example :
@@ -339,15 +337,13 @@ Proof. vm_compute. split; reflexivity. Qed.
 Theorem h265_end_to_end : forall ps l cs,
   from_first isk265 (filter nonempty ps) = flat_map enc265 l ->
   Forall wf_apkt5 l ->
-  Forall (fun n => nal_ok n = true) (flat_map carried265 l) ->
+  Forall (fun n => nal_ok4 n = true) (flat_map carried265 l) ->
   chunks_ok cs ->
   List.concat cs = fst (write_all unm265 isk265 {| has_kf := false; dep := [] |} ps) ->
   read_all (fun _ => false) cs = (flat_map carried265 l, "eof"%string).
 Proof.
   intros ps l cs Hs Hwf Hok Hcs Hcat.
-  rewrite gate, Hs, unm265_contract in Hcat by exact Hwf. unfold frame4 in Hcat.
-  rewrite (roundtrip_all (fun _ => false) cs _ (fun _ => eq_refl) Hcs Hcat).
-  - rewrite map_map. cbn [snd]. rewrite map_id. reflexivity.
-  - unfold units_ok. rewrite Forall_map. cbn [snd]. exact Hok.
+  rewrite gate, Hs, unm265_contract in Hcat by exact Hwf.
+  exact (roundtrip_all4 (fun _ => false) cs _ (fun _ => eq_refl) Hcs Hcat Hok).
 Qed.
 
